@@ -283,8 +283,11 @@ func c07ClearTransport(c *core.Ctx) {
 				if cl.Key == timerStopKey {
 					arg = cl.Recv
 				}
-				if h := timerHolder(x.Info(), arg); h == "socket.pingTimeoutTimer" || h == "socket.pingIntervalTimer" {
-					cancels++
+				for _, h := range []string{timerHolder(x.Info(), arg), timerHolder(x.Info(), x.Deep(arg))} {
+					if h == "socket.pingTimeoutTimer" || h == "socket.pingIntervalTimer" {
+						cancels++
+						break
+					}
 				}
 			}
 		}
